@@ -717,7 +717,8 @@ theorem frame_copy_write (fuel : Nat) (h : Heap) (pre : Memo) (v : Val) (s' : St
 
 /-- **retarget_step_partial**: the re-targeting step of `deep_copy_annotations_from` binds the copied annotation to the copy
 `j` (same attribute name) when its source was bound to the source owner `i`.
-PARTIAL: this is a statement about the single step `retarget`, immediately after it. What is missing for the clause "bound
+PARTIAL: this is a statement about the single step `retarget`, immediately after it; the FINAL-state statement is
+`bound_annotation_follows` (proved). What is missing for the clause "bound
 annotations of the copy follow the copy's attributes": that in the FINAL state of `cpVal` every bound annotation of the copy
 whose source was bound to `i` is bound to `memo(i)` — later steps could in principle overwrite `_value` again (they do not
 on any of the compared cases; the harness checks owner identity and value-following on the real copy for every case). -/
@@ -1561,53 +1562,110 @@ theorem objRel_setAnn {m : Memo} {o o' : Obj} (v : Val) (ha : annAware o.kind = 
 /-! #### the correspondence invariant -/
 def Blank (h0 : Heap) (s : St) (p : Nat × Nat) : Prop :=
   ∃ o o', h0[p.1]? = some o ∧ s.h[p.2]? = some o' ∧ o'.fields = [] ∧ (o.kind = .annset ∨ (o'.kind = o.kind ∧ o'.cls = o.cls))
+/-- what the copy's `_value` looks like when the source's is read by `boundValue` as `(ref ow, atom nm)`: either still the
+generic copy of the source's `_value` object (a memo-image of it), or a re-targeting tuple `(ref j, atom nm)` — an object that is
+no memo target — whose owner `j` is a memo-image of the source's owner -/
+def VC (h0 : Heap) (s : St) (p : Nat × Nat) (o o' : Obj) : Prop :=
+  ∀ tv ow nm, o.get "_value" = some (.ref tv) → (∀ v, ("_value", v) ∈ o.fields → v = .ref tv) →
+    boundValue h0 p.1 = some (.ref ow, .atom nm) →
+    (∃ t, o'.get "_value" = some (.ref t) ∧ (tv, t) ∈ s.m) ∨
+    (∃ t j ot, o'.get "_value" = some (.ref t) ∧ s.h[t]? = some ot ∧ ot.get "#0" = some (.ref j) ∧
+      ot.get "#1" = some (.atom nm) ∧ (∀ q ∈ s.m, q.2 ≠ t) ∧ (ow, j) ∈ s.m)
 def Done (h0 : Heap) (s : St) (p : Nat × Nat) : Prop :=
-  ∃ o o', h0[p.1]? = some o ∧ s.h[p.2]? = some o' ∧ (o.kind = .annset ∨ ObjRel s.m o o')
+  ∃ o o', h0[p.1]? = some o ∧ s.h[p.2]? = some o' ∧ (o.kind = .annset ∨ (ObjRel s.m o o' ∧ VC h0 s p o o'))
 /-- every memo entry is pre-seeded, or a pending (in-progress, still blank) copy listed in `P`, or a completed copy -/
 def Iso (h0 : Heap) (pre : Memo) (P : List (Nat × Nat)) (s : St) : Prop :=
   ∀ p ∈ s.m, p ∈ pre ∨ (p ∈ P ∧ Blank h0 s p) ∨ Done h0 s p
 def MemoSub (s s' : St) : Prop := ∀ p ∈ s.m, p ∈ s'.m
 
+theorem lt_of_get {h : Heap} {x : Nat} {o : Obj} (hg : h[x]? = some o) : x < h.size :=
+  (Array.getElem?_eq_some_iff.mp hg).1
+
+/-- transport of a completed entry across a step that keeps every object except possibly `w`, where `w` is a memo target or a
+new index, and adds only memo entries with new targets -/
+theorem done_transport {h0 : Heap} {s s' : St} {p : Nat × Nat} (w : Nat) (hd : Done h0 s p) (hm : MemoSub s s')
+    (hn : ∀ q ∈ s'.m, q ∈ s.m ∨ s.h.size ≤ q.2)
+    (hk : ∀ x ox, s.h[x]? = some ox → x ≠ w → s'.h[x]? = some ox)
+    (hw : (∃ q ∈ s.m, q.2 = w) ∨ s.h.size ≤ w) (hp : p.2 ≠ w) : Done h0 s' p := by
+  obtain ⟨o, o', h1, h2, h3⟩ := hd
+  refine ⟨o, o', h1, hk _ _ h2 hp, ?_⟩
+  rcases h3 with a | ⟨r, v⟩
+  · exact Or.inl a
+  · refine Or.inr ⟨objRel_mono hm r, ?_⟩
+    intro tv ow nm e1 hu e2
+    rcases v tv ow nm e1 hu e2 with ⟨t, a, b⟩ | ⟨t, j, ot, a, b, c, d, e, f⟩
+    · exact Or.inl ⟨t, a, hm _ b⟩
+    · have htw : t ≠ w := by
+        rcases hw with ⟨q, hq, e'⟩ | hge
+        · intro e''; exact e q hq (by rw [e', e''])
+        · have := lt_of_get b; omega
+      refine Or.inr ⟨t, j, ot, a, hk _ _ b htw, c, d, ?_, hm _ f⟩
+      intro q hq
+      rcases hn q hq with h' | h'
+      · exact e q h'
+      · have := lt_of_get b; omega
+
+theorem blank_transport {h0 : Heap} {s s' : St} {p : Nat × Nat} (w : Nat) (hd : Blank h0 s p)
+    (hk : ∀ x ox, s.h[x]? = some ox → x ≠ w → s'.h[x]? = some ox) (hp : p.2 ≠ w) : Blank h0 s' p := by
+  obtain ⟨o, o', h1, h2, h3⟩ := hd
+  exact ⟨o, o', h1, hk _ _ h2 hp, h3⟩
+
+theorem keep_push (h : Heap) (o : Obj) : ∀ x ox, h[x]? = some ox → x ≠ h.size → (h.push o)[x]? = some ox := by
+  intro x ox hx _
+  have := lt_of_get hx
+  rw [← hx]; simp [Array.getElem?_push]; omega
+theorem keep_set (h : Heap) (j : Nat) (o : Obj) : ∀ x ox, h[x]? = some ox → x ≠ j → (h.setIfInBounds j o)[x]? = some ox := by
+  intro x ox hx hne
+  rw [← hx]; simp [Array.getElem?_setIfInBounds, Ne.symm hne]
+
 theorem iso_push {h0 : Heap} {pre : Memo} {P : List (Nat × Nat)} {s : St} (hi : Iso h0 pre P s) (o : Obj) :
     Iso h0 pre P ⟨s.h.push o, s.m⟩ := by
   intro p hp
-  have keep : ∀ (x : Nat) (ox : Obj), s.h[x]? = some ox → (s.h.push o)[x]? = some ox := by
-    intro x ox hx
-    have := (Array.getElem?_eq_some_iff.mp hx).1
-    rw [← hx]; simp [Array.getElem?_push]; omega
-  rcases hi p hp with a | ⟨hP, so, o', h0', h1, h2⟩ | ⟨so, o', h1, h2, h3⟩
+  rcases hi p hp with a | ⟨hP, hb⟩ | hd
   · exact Or.inl a
-  · exact Or.inr (Or.inl ⟨hP, so, o', h0', keep _ _ h1, h2⟩)
-  · exact Or.inr (Or.inr ⟨so, o', h1, keep _ _ h2, h3⟩)
+  · obtain ⟨_, ox, _, hx, _⟩ := id hb
+    exact Or.inr (Or.inl ⟨hP, blank_transport s.h.size hb (keep_push s.h o) (Nat.ne_of_lt (lt_of_get hx))⟩)
+  · obtain ⟨_, ox, _, hx, _⟩ := id hd
+    exact Or.inr (Or.inr (done_transport s.h.size hd (fun _ h => h) (fun q hq => Or.inl hq) (keep_push s.h o)
+      (Or.inr (Nat.le_refl _)) (Nat.ne_of_lt (lt_of_get hx))))
 
-theorem iso_memo {h0 : Heap} {pre : Memo} {P : List (Nat × Nat)} {s : St} (hi : Iso h0 pre P s) (i j : Nat)
-    (hnew : ((i, j) ∈ P ∧ Blank h0 s (i, j)) ∨ Done h0 ⟨s.h, (i, j) :: s.m⟩ (i, j)) : Iso h0 pre P ⟨s.h, (i, j) :: s.m⟩ := by
+/-- allocation of a new object registered at once in the memo -/
+theorem iso_alloc {h0 : Heap} {pre : Memo} {P : List (Nat × Nat)} {s : St} (hi : Iso h0 pre P s) (o : Obj) (i : Nat)
+    (hnew : ((i, s.h.size) ∈ P ∧ Blank h0 ⟨s.h.push o, (i, s.h.size) :: s.m⟩ (i, s.h.size)) ∨
+      Done h0 ⟨s.h.push o, (i, s.h.size) :: s.m⟩ (i, s.h.size)) :
+    Iso h0 pre P ⟨s.h.push o, (i, s.h.size) :: s.m⟩ := by
   intro p hp
   rcases List.mem_cons.mp hp with e | e
   · subst e
     rcases hnew with a | a
     · exact Or.inr (Or.inl a)
     · exact Or.inr (Or.inr a)
-  · rcases hi p e with a | a | ⟨so, o', h1, h2, h3⟩
+  · rcases hi p e with a | ⟨hP, hb⟩ | hd
     · exact Or.inl a
-    · exact Or.inr (Or.inl a)
-    · exact Or.inr (Or.inr ⟨so, o', h1, h2, h3.imp id (objRel_mono (fun q hq => List.mem_cons_of_mem _ hq))⟩)
+    · obtain ⟨_, ox, _, hx, _⟩ := id hb
+      exact Or.inr (Or.inl ⟨hP, blank_transport s.h.size hb (keep_push s.h o) (Nat.ne_of_lt (lt_of_get hx))⟩)
+    · obtain ⟨_, ox, _, hx, _⟩ := id hd
+      refine Or.inr (Or.inr (done_transport s.h.size hd (fun q h => List.mem_cons_of_mem _ h) ?_ (keep_push s.h o)
+        (Or.inr (Nat.le_refl _)) (Nat.ne_of_lt (lt_of_get hx))))
+      intro q hq
+      rcases List.mem_cons.mp hq with e' | e'
+      · subst e'; exact Or.inr (Nat.le_refl _)
+      · exact Or.inl e'
 
-/-- replacing object `j`: the entries with another target are unaffected, those with target `j` are re-established by the caller -/
+/-- replacing object `j` (a memo target): the entries with another target are unaffected, those with target `j` are re-established
+by the caller -/
 theorem iso_update {h0 : Heap} {pre : Memo} {P P' : List (Nat × Nat)} {s : St} (hi : Iso h0 pre P s) (j : Nat) (onew : Obj)
-    (hP : ∀ p ∈ P, p.2 ≠ j → p ∈ P')
+    (hjt : ∃ q ∈ s.m, q.2 = j) (hP : ∀ p ∈ P, p.2 ≠ j → p ∈ P')
     (hj : ∀ p ∈ s.m, p.2 = j → p ∈ pre ∨ (p ∈ P' ∧ Blank h0 ⟨s.h.setIfInBounds j onew, s.m⟩ p) ∨
       Done h0 ⟨s.h.setIfInBounds j onew, s.m⟩ p) :
     Iso h0 pre P' ⟨s.h.setIfInBounds j onew, s.m⟩ := by
   intro p hp
   by_cases e : p.2 = j
   · exact hj p hp e
-  · have keep : (s.h.setIfInBounds j onew)[p.2]? = s.h[p.2]? := by
-      simp [Array.getElem?_setIfInBounds, Ne.symm e]
-    rcases hi p hp with a | ⟨hp', so, o', h0', h1, h2⟩ | ⟨so, o', h1, h2, h3⟩
+  · rcases hi p hp with a | ⟨hp', hb⟩ | hd
     · exact Or.inl a
-    · exact Or.inr (Or.inl ⟨hP p hp' e, so, o', h0', by rw [keep]; exact h1, h2⟩)
-    · exact Or.inr (Or.inr ⟨so, o', h1, by rw [keep]; exact h2, h3⟩)
+    · exact Or.inr (Or.inl ⟨hP p hp' e, blank_transport j hb (keep_set s.h j onew) e⟩)
+    · exact Or.inr (Or.inr (done_transport j hd (fun _ h => h) (fun q hq => Or.inl hq) (keep_set s.h j onew) (Or.inl hjt) e))
 
 theorem iso_weaken {h0 : Heap} {pre : Memo} {P P' : List (Nat × Nat)} {s : St} (hi : Iso h0 pre P s)
     (hP : ∀ p ∈ P, p ∈ P') : Iso h0 pre P' s := by
@@ -1637,8 +1695,71 @@ theorem getElem?_set_self {h : Heap} {j : Nat} {o : Obj} (hg : h[j]? = some o) (
 theorem isBound_eq_isB {h : Heap} {j : Nat} {o : Obj} (hg : h[j]? = some o) : isBound h j = isB o := by
   unfold isBound isB; rw [hg]
 
-theorem iso_retarget {b : Nat} {h0 : Heap} {pre : Memo} {P : List (Nat × Nat)} {s : St} (g : Good b h0 pre s)
-    (hi : Iso h0 pre P s) (i j : Nat) (a1 a2 : Val) : Iso h0 pre P (retarget s i j a1 a2) := by
+theorem get_setFieldL_self (n : String) (v : Val) (fs : List (String × Val)) : (setFieldL n v fs).lookup n = some v := by
+  induction fs with
+  | nil => simp [setFieldL, List.lookup]
+  | cons p r ih =>
+    obtain ⟨k, x⟩ := p
+    simp only [setFieldL]
+    by_cases hk : k == n
+    · simp at hk; subst hk; simp [List.lookup]
+    · have hk' : (n == k) = false := by
+        simp at hk ⊢; exact fun e => hk e.symm
+      simp [hk, List.lookup, hk', ih]
+
+/-- the state after the re-targeting write, and what it establishes for the entries whose target is the re-targeted object -/
+theorem done_retargeted {b : Nat} {h0 : Heap} {pre : Memo} {s : St} (g : Good b h0 pre s) (hpre : ∀ p ∈ pre, p.2 < b)
+    (i j i1 j2 : Nat) (nm : String) (o2 : Obj) (ho2 : s.h[j2]? = some o2) (hbo : isB o2 = true)
+    (hbv : boundValue h0 i1 = some (.ref i, .atom nm)) (hij : (i, j) ∈ s.m) (h12 : (i1, j2) ∈ s.m) (hj2 : b ≤ j2)
+    (p : Nat × Nat) (hp : p ∈ s.m) (e : p.2 = j2) (hd : Done h0 s p) :
+    Done h0 ⟨(s.h.push (Obj.mk .tuple "tuple" [("#0", .ref j), ("#1", .atom nm)])).setIfInBounds j2
+      { o2 with fields := setFieldL "_value" (.ref s.h.size) o2.fields }, s.m⟩ p := by
+  have hlt := lt_of_get ho2
+  have ho2' : (s.h.push (Obj.mk .tuple "tuple" [("#0", .ref j), ("#1", .atom nm)]))[j2]? = some o2 := by
+    rw [← ho2]; simp [Array.getElem?_push]; omega
+  have hp1 : p.1 = i1 := (g.inj hpre (i1, j2) p h12 hp hj2 e.symm).symm
+  obtain ⟨so, o', h1, h2, h3⟩ := hd
+  rw [e] at h2; rw [ho2] at h2; cases h2
+  refine ⟨so, _, h1, by rw [e]; exact getElem?_set_self ho2' _, ?_⟩
+  rcases h3 with a | ⟨r, _⟩
+  · exact Or.inl a
+  · refine Or.inr ⟨objRel_setValue _ hbo r, ?_⟩
+    intro tv ow nm' e1 _ e2
+    rw [hp1, hbv] at e2
+    cases e2
+    refine Or.inr ⟨s.h.size, j, Obj.mk .tuple "tuple" [("#0", .ref j), ("#1", .atom nm)], ?_, ?_, ?_, ?_, ?_, hij⟩
+    · simp only [Obj.get]; exact get_setFieldL_self _ _ _
+    · have : j2 ≠ s.h.size := by omega
+      simp [Array.getElem?_setIfInBounds, this]
+    · simp [Obj.get, List.lookup]
+    · simp [Obj.get, List.lookup]
+    · intro q hq; exact Nat.ne_of_lt (g.lt hpre q hq)
+
+/-- facts about the re-targeting step that the invariants need: the source annotation is read in the unchanged source region, the
+owner's copy is registered, and the re-targeted object is a registered copy of the item -/
+structure RtCtx (b : Nat) (h0 : Heap) (pre : Memo) (s : St) (i j : Nat) (a1 a2 : Val) : Prop where
+  good : Good b h0 pre s
+  hpre : ∀ p ∈ pre, p.2 < b
+  hnw : ∀ x ∈ targets pre, isBound h0 x = false
+  same : ∀ i1, a1 = .ref i1 → boundValue s.h i1 = boundValue h0 i1
+  hij : (i, j) ∈ s.m
+  rel : ∀ i1 j2, a1 = .ref i1 → a2 = .ref j2 → (i1, j2) ∈ s.m
+
+theorem rt_fresh {b : Nat} {h0 : Heap} {pre : Memo} {s : St} {i j : Nat} {a1 a2 : Val} (cx : RtCtx b h0 pre s i j a1 a2)
+    (i1 j2 : Nat) (e1 : a1 = .ref i1) (e2 : a2 = .ref j2) (hb : isBound s.h j2 = true) : b ≤ j2 := by
+  by_cases hlt : j2 < b
+  · exfalso
+    rcases cx.good.fresh _ (cx.rel i1 j2 e1 e2) with hp | hge
+    · have ht : j2 ∈ targets pre := List.mem_map.mpr ⟨_, hp, rfl⟩
+      have := cx.hnw j2 ht
+      have hs := old_all cx.good cx.hnw j2 hlt
+      rw [isBound_congr hs] at hb
+      rw [this] at hb; cases hb
+    · simp at hge; omega
+  · omega
+
+theorem iso_retarget {b : Nat} {h0 : Heap} {pre : Memo} {P : List (Nat × Nat)} {s : St} (i j : Nat) (a1 a2 : Val)
+    (cx : RtCtx b h0 pre s i j a1 a2) (hi : Iso h0 pre P s) : Iso h0 pre P (retarget s i j a1 a2) := by
   unfold retarget
   split
   · rename_i i1 j2
@@ -1647,79 +1768,97 @@ theorem iso_retarget {b : Nat} {h0 : Heap} {pre : Memo} {P : List (Nat × Nat)} 
       split
       · rename_i ow nm hbv
         split
-        · have hlt : j2 < s.h.size := by
+        · rename_i how
+          have howi : ow = i := by simpa using how
+          subst howi
+          obtain ⟨o2, ho2⟩ : ∃ o2, s.h[j2]? = some o2 := by
             unfold isBound at hb
             cases hg : s.h[j2]? with
             | none => simp [hg] at hb
-            | some o => exact (Array.getElem?_eq_some_iff.mp hg).1
-          obtain ⟨o2, ho2⟩ : ∃ o2, s.h[j2]? = some o2 := ⟨s.h[j2], by simp [hlt]⟩
+            | some o => exact ⟨o, rfl⟩
+          have hlt := lt_of_get ho2
+          have hbo : isB o2 = true := by rw [← isBound_eq_isB ho2]; exact hb
+          have hj2 := rt_fresh cx i1 j2 rfl rfl hb
+          have h12 := cx.rel i1 j2 rfl rfl
+          have hbv0 : boundValue h0 i1 = some (.ref ow, .atom nm) := by rw [← cx.same i1 rfl]; exact hbv
           have hi1 := iso_push hi (Obj.mk .tuple "tuple" [("#0", .ref j), ("#1", .atom nm)])
           have ho2' : (s.h.push (Obj.mk .tuple "tuple" [("#0", .ref j), ("#1", .atom nm)]))[j2]? = some o2 := by
             rw [← ho2]; simp [Array.getElem?_push]; omega
           show Iso h0 pre P ⟨setField (s.h.push (Obj.mk .tuple "tuple" [("#0", .ref j), ("#1", .atom nm)])) j2 "_value"
             (.ref s.h.size), s.m⟩
           rw [setField_eq ho2']
-          apply iso_update hi1 j2 _ (fun p hp _ => hp)
+          apply iso_update hi1 j2 _ ⟨(i1, j2), h12, rfl⟩ (fun p hp _ => hp)
           intro p hp e
-          have hbo : isB o2 = true := by rw [← isBound_eq_isB ho2]; exact hb
-          rcases hi1 p hp with a | ⟨_, so, o', _, h1, h2, _⟩ | ⟨so, o', h1, h2, h3⟩
+          rcases hi p hp with a | ⟨_, so, o', _, h1, h2, _⟩ | hd
           · exact Or.inl a
           · exfalso
-            rw [e] at h1; simp only at h1; rw [ho2'] at h1; cases h1
+            rw [e] at h1; rw [ho2] at h1; cases h1
             simp [isB, Obj.get, h2] at hbo
-          · refine Or.inr (Or.inr ⟨so, _, h1, by rw [e]; exact getElem?_set_self ho2' _, ?_⟩)
-            rw [e] at h2; simp only at h2; rw [ho2'] at h2; cases h2
-            exact h3.imp id (objRel_setValue _ hbo)
+          · exact Or.inr (Or.inr (done_retargeted cx.good cx.hpre ow j i1 j2 nm o2 ho2 hbo hbv0 cx.hij h12 hj2 p hp e hd))
         · exact hi
       · exact hi
     · exact hi
   · exact hi
 
-/-- what a (sub-)call guarantees about what was already there: memo entries stay, blank (in-progress) and completed copies stay so -/
+/-- what a (sub-)call guarantees about what was already there: memo entries stay, new entries have new targets, blank
+(in-progress) and completed copies stay so -/
 structure Stable (h0 : Heap) (s s' : St) : Prop where
   sub : MemoSub s s'
   size : s.h.size ≤ s'.h.size
+  newtgt : ∀ q ∈ s'.m, q ∈ s.m ∨ s.h.size ≤ q.2
   blank : ∀ p, Blank h0 s p → Blank h0 s' p
-  done : ∀ p, Done h0 s p → Done h0 s' p
+  done : ∀ p ∈ s.m, Done h0 s p → Done h0 s' p
 
-theorem stable_refl (h0 : Heap) (s : St) : Stable h0 s s := ⟨fun _ h => h, Nat.le_refl _, fun _ h => h, fun _ h => h⟩
+theorem stable_refl (h0 : Heap) (s : St) : Stable h0 s s :=
+  ⟨fun _ h => h, Nat.le_refl _, fun _ h => Or.inl h, fun _ h => h, fun _ _ h => h⟩
 theorem stable_trans {h0 : Heap} {a b c : St} (h1 : Stable h0 a b) (h2 : Stable h0 b c) : Stable h0 a c :=
-  ⟨fun p h => h2.sub p (h1.sub p h), Nat.le_trans h1.size h2.size, fun p h => h2.blank p (h1.blank p h),
-    fun p h => h2.done p (h1.done p h)⟩
+  ⟨fun p h => h2.sub p (h1.sub p h), Nat.le_trans h1.size h2.size,
+    fun q hq => by
+      rcases h2.newtgt q hq with h | h
+      · exact h1.newtgt q h
+      · exact Or.inr (Nat.le_trans h1.size h),
+    fun p h => h2.blank p (h1.blank p h), fun p hp h => h2.done p (h1.sub p hp) (h1.done p hp h)⟩
 
 theorem stable_push (h0 : Heap) (s : St) (o : Obj) : Stable h0 s ⟨s.h.push o, s.m⟩ := by
-  have keep : ∀ (x : Nat) (ox : Obj), s.h[x]? = some ox → (s.h.push o)[x]? = some ox := by
-    intro x ox hx
-    have := (Array.getElem?_eq_some_iff.mp hx).1
-    rw [← hx]; simp [Array.getElem?_push]; omega
-  refine ⟨fun _ h => h, by simp, ?_, ?_⟩
-  · rintro p ⟨so, o', a, b, c⟩; exact ⟨so, o', a, keep _ _ b, c⟩
-  · rintro p ⟨so, o', a, b, c⟩; exact ⟨so, o', a, keep _ _ b, c⟩
+  refine ⟨fun _ h => h, by simp, fun _ h => Or.inl h, ?_, ?_⟩
+  · intro p hb
+    obtain ⟨_, ox, _, hx, _⟩ := id hb
+    exact blank_transport s.h.size hb (keep_push s.h o) (Nat.ne_of_lt (lt_of_get hx))
+  · intro p _ hd
+    obtain ⟨_, ox, _, hx, _⟩ := id hd
+    exact done_transport s.h.size hd (fun _ h => h) (fun q hq => Or.inl hq) (keep_push s.h o)
+      (Or.inr (Nat.le_refl _)) (Nat.ne_of_lt (lt_of_get hx))
 
-theorem stable_memo (h0 : Heap) (s : St) (i j : Nat) : Stable h0 s ⟨s.h, (i, j) :: s.m⟩ := by
-  refine ⟨fun p h => List.mem_cons_of_mem _ h, Nat.le_refl _, fun _ h => h, ?_⟩
-  rintro p ⟨so, o', a, b, c⟩
-  exact ⟨so, o', a, b, c.imp id (objRel_mono (fun q hq => List.mem_cons_of_mem _ hq))⟩
+theorem stable_alloc (h0 : Heap) (s : St) (o : Obj) (i : Nat) : Stable h0 s ⟨s.h.push o, (i, s.h.size) :: s.m⟩ := by
+  have hn : ∀ q ∈ (i, s.h.size) :: s.m, q ∈ s.m ∨ s.h.size ≤ q.2 := by
+    intro q hq
+    rcases List.mem_cons.mp hq with e' | e'
+    · subst e'; exact Or.inr (Nat.le_refl _)
+    · exact Or.inl e'
+  refine ⟨fun p h => List.mem_cons_of_mem _ h, by simp, hn, ?_, ?_⟩
+  · intro p hb
+    obtain ⟨_, ox, _, hx, _⟩ := id hb
+    exact blank_transport s.h.size hb (keep_push s.h o) (Nat.ne_of_lt (lt_of_get hx))
+  · intro p _ hd
+    obtain ⟨_, ox, _, hx, _⟩ := id hd
+    exact done_transport s.h.size hd (fun q h => List.mem_cons_of_mem _ h) hn (keep_push s.h o)
+      (Or.inr (Nat.le_refl _)) (Nat.ne_of_lt (lt_of_get hx))
 
-/-- overwriting an object that did not exist in `s` (allocated since) cannot disturb what `s` knew -/
-theorem stable_update_new {h0 : Heap} {s s2 : St} (h : Stable h0 s s2) (j : Nat) (hj : s.h.size ≤ j) (onew : Obj) :
-    Stable h0 s ⟨s2.h.setIfInBounds j onew, s2.m⟩ := by
-  have ne : ∀ (p : Nat × Nat) (ox : Obj), s.h[p.2]? = some ox → (s2.h.setIfInBounds j onew)[p.2]? = s2.h[p.2]? := by
-    intro p ox hx
-    have := (Array.getElem?_eq_some_iff.mp hx).1
-    have : j ≠ p.2 := by omega
-    simp [Array.getElem?_setIfInBounds, this]
-  refine ⟨h.sub, by simpa using h.size, ?_, ?_⟩
+/-- overwriting an object that did not exist in `s` (allocated since, a memo target now) cannot disturb what `s` knew -/
+theorem stable_update_new {h0 : Heap} {s s2 : St} (h : Stable h0 s s2) (j : Nat) (hj : s.h.size ≤ j) (onew : Obj)
+    (hjt : ∃ q ∈ s2.m, q.2 = j) : Stable h0 s ⟨s2.h.setIfInBounds j onew, s2.m⟩ := by
+  refine ⟨h.sub, by simpa using h.size, h.newtgt, ?_, ?_⟩
   · intro p hp
-    obtain ⟨so, o', a, b, c⟩ := h.blank p hp
-    obtain ⟨_, ox, _, hx, _⟩ := hp
-    exact ⟨so, o', a, by rw [ne p ox hx]; exact b, c⟩
-  · intro p hp
-    obtain ⟨so, o', a, b, c⟩ := h.done p hp
-    obtain ⟨_, ox, _, hx, _⟩ := hp
-    exact ⟨so, o', a, by rw [ne p ox hx]; exact b, c⟩
+    obtain ⟨_, ox, _, hx, _⟩ := id hp
+    have := lt_of_get hx
+    exact blank_transport j (h.blank p hp) (keep_set s2.h j onew) (by omega)
+  · intro p hpm hp
+    obtain ⟨_, ox, _, hx, _⟩ := id hp
+    have := lt_of_get hx
+    exact done_transport j (h.done p hpm hp) (fun _ h => h) (fun q hq => Or.inl hq) (keep_set s2.h j onew) (Or.inl hjt) (by omega)
 
-theorem stable_retarget (h0 : Heap) (s : St) (i j : Nat) (a1 a2 : Val) : Stable h0 s (retarget s i j a1 a2) := by
+theorem stable_retarget {b : Nat} {h0 : Heap} {pre : Memo} {s : St} (i j : Nat) (a1 a2 : Val)
+    (cx : RtCtx b h0 pre s i j a1 a2) : Stable h0 s (retarget s i j a1 a2) := by
   unfold retarget
   split
   · rename_i i1 j2
@@ -1728,33 +1867,38 @@ theorem stable_retarget (h0 : Heap) (s : St) (i j : Nat) (a1 a2 : Val) : Stable 
       split
       · rename_i ow nm hbv
         split
-        · have hlt : j2 < s.h.size := by
+        · rename_i how
+          have howi : ow = i := by simpa using how
+          subst howi
+          obtain ⟨o2, ho2⟩ : ∃ o2, s.h[j2]? = some o2 := by
             unfold isBound at hb
             cases hg : s.h[j2]? with
             | none => simp [hg] at hb
-            | some o => exact (Array.getElem?_eq_some_iff.mp hg).1
-          obtain ⟨o2, ho2⟩ : ∃ o2, s.h[j2]? = some o2 := ⟨s.h[j2], by simp [hlt]⟩
+            | some o => exact ⟨o, rfl⟩
+          have hlt := lt_of_get ho2
           have hbo : isB o2 = true := by rw [← isBound_eq_isB ho2]; exact hb
+          have hj2 := rt_fresh cx i1 j2 rfl rfl hb
+          have h12 := cx.rel i1 j2 rfl rfl
+          have hbv0 : boundValue h0 i1 = some (.ref ow, .atom nm) := by rw [← cx.same i1 rfl]; exact hbv
           have ho2' : (s.h.push (Obj.mk .tuple "tuple" [("#0", .ref j), ("#1", .atom nm)]))[j2]? = some o2 := by
             rw [← ho2]; simp [Array.getElem?_push]; omega
           show Stable h0 s ⟨setField (s.h.push (Obj.mk .tuple "tuple" [("#0", .ref j), ("#1", .atom nm)])) j2 "_value"
             (.ref s.h.size), s.m⟩
           rw [setField_eq ho2']
           have sp := stable_push h0 s (Obj.mk .tuple "tuple" [("#0", .ref j), ("#1", .atom nm)])
-          refine ⟨fun _ h => h, by simp, ?_, ?_⟩
+          refine ⟨fun _ h => h, by simp, fun _ h => Or.inl h, ?_, ?_⟩
           · intro p hp
-            obtain ⟨so, o', a, b, c, d⟩ := sp.blank p hp
             by_cases e : p.2 = j2
             · exfalso
-              rw [e] at b; simp only at b; rw [ho2'] at b; cases b
+              obtain ⟨so, o', a, b', c, d⟩ := hp
+              rw [e] at b'; rw [ho2] at b'; cases b'
               simp [isB, Obj.get, c] at hbo
-            · exact ⟨so, o', a, by simp only; rw [← b]; simp [Array.getElem?_setIfInBounds, Ne.symm e], c, d⟩
-          · intro p hp
-            obtain ⟨so, o', a, b, c⟩ := sp.done p hp
+            · exact blank_transport j2 (sp.blank p hp) (keep_set _ j2 _) e
+          · intro p hpm hp
             by_cases e : p.2 = j2
-            · rw [e] at b; simp only at b; rw [ho2'] at b; cases b
-              exact ⟨so, _, a, by simp only; rw [e]; exact getElem?_set_self ho2' _, c.imp id (objRel_setValue _ hbo)⟩
-            · exact ⟨so, o', a, by simp only; rw [← b]; simp [Array.getElem?_setIfInBounds, Ne.symm e], c⟩
+            · exact done_retargeted cx.good cx.hpre ow j i1 j2 nm o2 ho2 hbo hbv0 cx.hij h12 hj2 p hpm e hp
+            · exact done_transport j2 (sp.done p hpm hp) (fun _ h => h) (fun q hq => Or.inl hq) (keep_set _ j2 _)
+                (Or.inl ⟨(i1, j2), h12, rfl⟩) e
         · exact stable_refl _ _
       · exact stable_refl _ _
     · exact stable_refl _ _
@@ -1762,6 +1906,67 @@ theorem stable_retarget (h0 : Heap) (s : St) (i j : Nat) (a1 a2 : Val) : Stable 
 
 theorem annotationsRef_aware {o : Obj} {a : Nat} (h : annotationsRef o = some a) : annAware o.kind = true := by
   cases hk : o.kind <;> simp only [annotationsRef, hk] at h <;> first | rfl | cases h
+
+theorem planFields_mem_of_ne {o : Obj} {f : String × Val} (h : f ∈ o.fields) (hne : f.1 ≠ "_annotations") : f ∈ planFields o := by
+  have hb : (f.1 != "_annotations") = true := by simpa using hne
+  cases hk : o.kind <;> simp only [planFields, hk]
+  · exact List.mem_filter.mpr ⟨h, hb⟩
+  · exact List.mem_filter.mpr ⟨h, hb⟩
+  · by_cases ht : f.1 = "_taxa"
+    · exact List.mem_append.mpr (Or.inl (List.mem_filter.mpr ⟨h, by simpa using ht⟩))
+    · exact List.mem_append.mpr (Or.inr (List.mem_filter.mpr ⟨h, by simp [hne, ht]⟩))
+  · exact h
+  · exact h
+  · exact h
+
+theorem lookup_of_mem_key {k : String} {v : Val} {fs : List (String × Val)} (h : (k, v) ∈ fs) :
+    ∃ x, fs.lookup k = some x ∧ (k, x) ∈ fs := by
+  induction fs with
+  | nil => cases h
+  | cons p r ih =>
+    obtain ⟨a, y⟩ := p
+    by_cases e : k == a
+    · simp at e; subst e; exact ⟨y, by simp [List.lookup], by simp⟩
+    · rcases List.mem_cons.mp h with h' | h'
+      · cases h'; simp at e
+      · obtain ⟨x, hx1, hx2⟩ := ih h'
+        exact ⟨x, by simp [List.lookup, e, hx1], List.mem_cons_of_mem _ hx2⟩
+
+/-- attaching `_annotations` to the completed copy of an annotation-aware object keeps it completed -/
+theorem done_setAnn {h0 : Heap} {s : St} {p : Nat × Nat} (v : Val) (hd : Done h0 s p)
+    (haw : ∀ o, h0[p.1]? = some o → annAware o.kind = true) (hjt : ∃ q ∈ s.m, q.2 = p.2) :
+    ∃ o', s.h[p.2]? = some o' ∧
+      Done h0 ⟨s.h.setIfInBounds p.2 { o' with fields := setFieldL "_annotations" v o'.fields }, s.m⟩ p := by
+  obtain ⟨o, o', h1, h2, h3⟩ := hd
+  refine ⟨o', h2, o, _, h1, getElem?_set_self h2 _, ?_⟩
+  rcases h3 with a | ⟨r, vc⟩
+  · exact Or.inl a
+  · refine Or.inr ⟨objRel_setAnn _ (haw o h1) r, ?_⟩
+    have hget : ({ o' with fields := setFieldL "_annotations" v o'.fields } : Obj).get "_value" = o'.get "_value" := by
+      simp only [Obj.get]; exact lookup_setFieldL_ne v o'.fields (by decide)
+    intro tv ow nm e1 hu e2
+    rcases vc tv ow nm e1 hu e2 with ⟨t, a, b⟩ | ⟨t, j, ot, a, b, c', d, e, f⟩
+    · exact Or.inl ⟨t, by rw [hget]; exact a, b⟩
+    · obtain ⟨q, hq, eq⟩ := hjt
+      have : t ≠ p.2 := by intro e'; exact e q hq (by rw [eq, e'])
+      exact Or.inr ⟨t, j, ot, by rw [hget]; exact a, keep_set s.h p.2 _ t ot b this, c', d, e, f⟩
+
+theorem boundValue_congr {c : Nat} {h0 h1 : Heap} (wf : WellFormed c h0) (hs : ∀ x, x < c → h1[x]? = h0[x]?) (i1 : Nat)
+    (hi : i1 < c) : boundValue h1 i1 = boundValue h0 i1 := by
+  unfold boundValue
+  rw [hs i1 hi]
+  cases hget : h0[i1]? with
+  | none => rfl
+  | some a =>
+    simp only
+    cases hv : a.get "_value" with
+    | none => rfl
+    | some v =>
+      cases v with
+      | atom x => rfl
+      | ref t =>
+        have : t < c := wf.closed i1 a hi hget _ (get_mem hv) t rfl
+        simp only [hs t this]
 
 section iso
 variable (c : Nat) (h0 : Heap) (pre : Memo)
@@ -1773,7 +1978,7 @@ def QF (f : Nat) : Prop := ∀ fs (P : List (Nat × Nat)) s s' fs', Good h0.size
   Iso h0 pre P s' ∧ Stable h0 s s' ∧ (∀ f' ∈ fs', ∃ x ∈ fs, x.1 = f'.1 ∧ ValRel s'.m x.2 f'.2) ∧
     (∀ x ∈ fs, ∃ f' ∈ fs', f'.1 = x.1 ∧ ValRel s'.m x.2 f'.2)
 def QI (f : Nat) : Prop := ∀ items (P : List (Nat × Nat)) s i j s' items', Good h0.size h0 pre s → Iso h0 pre P s → h0.size ≤ j →
-  (∀ v ∈ items, SrcVal c v) → cpItems f s i j items = .ok (s', items') → Iso h0 pre P s' ∧ Stable h0 s s'
+  (i, j) ∈ s.m → (∀ v ∈ items, SrcVal c v) → cpItems f s i j items = .ok (s', items') → Iso h0 pre P s' ∧ Stable h0 s s'
 
 variable {c h0 pre}
 
@@ -1816,16 +2021,17 @@ theorem qf_of_qv {f : Nat} (hq : QV c h0 pre f) : QF c h0 pre f := by
           · obtain ⟨f', hf', a, b⟩ := rb x e
             exact ⟨f', List.mem_cons_of_mem _ hf', a, b⟩
 
-theorem qi_of_qv {f : Nat} (hq : QV c h0 pre f) : QI c h0 pre f := by
+theorem qi_of_qv (wf : WellFormed c h0) (hnw : ∀ x ∈ targets pre, isBound h0 x = false) (hpre : ∀ p ∈ pre, p.2 < h0.size)
+    {f : Nat} (hq : QV c h0 pre f) : QI c h0 pre f := by
   intro items
   induction items with
   | nil =>
-    intro P s i j s' items' g hi _ _ h
+    intro P s i j s' items' g hi _ _ _ h
     simp [cpItems] at h
     obtain ⟨e1, e2⟩ := h; subst e1; subst e2
     exact ⟨hi, stable_refl _ _⟩
   | cons a1 r ih =>
-    intro P s i j s' items' g hi hj hsrc h
+    intro P s i j s' items' g hi hj hij hsrc h
     simp only [cpItems] at h
     cases h1 : cpVal f s a1 with
     | error e => simp [h1] at h
@@ -1839,12 +2045,20 @@ theorem qi_of_qv {f : Nat} (hq : QV c h0 pre f) : QI c h0 pre f := by
         simp only [h2] at h
         simp at h
         obtain ⟨e1, e2⟩ := h; subst e1; subst e2
-        obtain ⟨i1, st1, _⟩ := hq P s a1 s1 a2 g hi (hsrc a1 (by simp)) h1
+        obtain ⟨i1, st1, rv⟩ := hq P s a1 s1 a2 g hi (hsrc a1 (by simp)) h1
         obtain ⟨g1, f1⟩ := (pval_all h0.size h0 pre f) s a1 s1 a2 g h1
         have g1' := good_retarget g1 i j hj a1 a2 f1
-        have i1' := iso_retarget g1 i1 i j a1 a2
-        obtain ⟨i2, st2⟩ := ih P (retarget s1 i j a1 a2) i j s2 r' g1' i1' hj (fun x hx => hsrc x (List.mem_cons_of_mem _ hx)) h2
-        exact ⟨i2, stable_trans st1 (stable_trans (stable_retarget h0 s1 i j a1 a2) st2)⟩
+        have hold1 := old_all g1 hnw
+        have cx : RtCtx h0.size h0 pre s1 i j a1 a2 :=
+          { good := g1, hpre := hpre, hnw := hnw,
+            same := fun x e => boundValue_congr wf (fun y hy => hold1 y (Nat.lt_of_lt_of_le hy wf.le)) x (hsrc a1 (by simp) x e),
+            hij := st1.sub _ hij,
+            rel := fun x y e1 e2 => by subst e1; subst e2; exact rv }
+        have i1' := iso_retarget i j a1 a2 cx i1
+        have str := stable_retarget i j a1 a2 cx
+        have hij' : (i, j) ∈ (retarget s1 i j a1 a2).m := str.sub _ (st1.sub _ hij)
+        obtain ⟨i2, st2⟩ := ih P (retarget s1 i j a1 a2) i j s2 r' g1' i1' hj hij' (fun x hx => hsrc x (List.mem_cons_of_mem _ hx)) h2
+        exact ⟨i2, stable_trans st1 (stable_trans str st2)⟩
 
 theorem qv_zero : QV c h0 pre 0 := by
   intro P s v s' v' g hi _ h
@@ -1868,7 +2082,7 @@ theorem qv_succ (wf : WellFormed c h0) (hnw : ∀ x ∈ targets pre, isBound h0 
       ∃ ao, h0[a]? = some ao ∧ ao.kind = .annset)
     {f : Nat} (hq : QV c h0 pre f) : QV c h0 pre (f + 1) := by
   have hF := qf_of_qv hq
-  have hI := qi_of_qv hq
+  have hI := qi_of_qv wf hnw hpre hq
   intro P s v s' v' g hi hsv h
   cases v with
   | atom a =>
@@ -1906,9 +2120,9 @@ theorem qv_succ (wf : WellFormed c h0) (hnw : ∀ x ∈ targets pre, isBound h0 
           have g2 := good_memo (good_push g1 (Obj.mk .annset o.cls []) (by simp)) i s1.h.size hb1 (by simp)
             (fun hp p hm => Nat.ne_of_lt (g1.lt hp p hm))
           have hA : (s1.h.push (Obj.mk .annset o.cls []))[s1.h.size]? = some (Obj.mk .annset o.cls []) := by simp
-          have i2 := iso_memo (iso_push (iso_weaken i1 (P' := (i, s1.h.size) :: P) (fun p hp => List.mem_cons_of_mem _ hp))
-            (Obj.mk .annset o.cls [])) i s1.h.size (Or.inl ⟨by simp, o, _, ho0, hA, rfl, Or.inl hk⟩)
-          have st2 := stable_trans (stable_push h0 s1 (Obj.mk .annset o.cls [])) (stable_memo h0 _ i s1.h.size)
+          have i2 := iso_alloc (iso_weaken i1 (P' := (i, s1.h.size) :: P) (fun p hp => List.mem_cons_of_mem _ hp))
+            (Obj.mk .annset o.cls []) i (Or.inl ⟨by simp, o, _, ho0, hA, rfl, Or.inl hk⟩)
+          have st2 := stable_alloc h0 s1 (Obj.mk .annset o.cls []) i
           cases e2 : cpFields f ⟨s1.h.push (Obj.mk .annset o.cls []), (i, s1.h.size) :: s1.m⟩ items with
           | error e => simp [e2] at h
           | ok r2 =>
@@ -1929,8 +2143,8 @@ theorem qv_succ (wf : WellFormed c h0) (hnw : ∀ x ∈ targets pre, isBound h0 
             have stA : Stable h0 s ⟨(s3.h.push L).push S, s3.m⟩ :=
               stable_trans st1 (stable_trans st2 (stable_trans st3
                 (stable_trans (stable_push h0 s3 L) (stable_push h0 ⟨s3.h.push L, s3.m⟩ S))))
-            refine ⟨?_, stable_update_new stA s1.h.size st1.size _, hmem⟩
-            apply iso_update (iso_push (iso_push i3 L) S) s1.h.size _ pend_drop
+            refine ⟨?_, stable_update_new stA s1.h.size st1.size _ ⟨(i, s1.h.size), hmem, rfl⟩, hmem⟩
+            apply iso_update (iso_push (iso_push i3 L) S) s1.h.size _ ⟨(i, s1.h.size), hmem, rfl⟩ pend_drop
             intro p hp e
             have hpi : i = p.1 := g3.inj hpre (i, s1.h.size) p hmem hp hb1 e.symm
             refine Or.inr (Or.inr ⟨o, _, by rw [← hpi]; exact ho0, by rw [e]; exact getElem?_set_self hoj _, Or.inl hk⟩)
@@ -1939,9 +2153,9 @@ theorem qv_succ (wf : WellFormed c h0) (hnw : ∀ x ∈ targets pre, isBound h0 
         have g1 := good_memo (good_push g { o with fields := [] } (by simp)) i s.h.size hb (by simp)
           (fun hp p hm => Nat.ne_of_lt (g.lt hp p hm))
         have hA : (s.h.push { o with fields := [] })[s.h.size]? = some { o with fields := [] } := by simp
-        have i1 := iso_memo (iso_push (iso_weaken hi (P' := (i, s.h.size) :: P) (fun p hp => List.mem_cons_of_mem _ hp))
-          { o with fields := [] }) i s.h.size (Or.inl ⟨by simp, o, _, ho0, hA, rfl, Or.inr ⟨rfl, rfl⟩⟩)
-        have st1 := stable_trans (stable_push h0 s { o with fields := [] }) (stable_memo h0 _ i s.h.size)
+        have i1 := iso_alloc (iso_weaken hi (P' := (i, s.h.size) :: P) (fun p hp => List.mem_cons_of_mem _ hp))
+          { o with fields := [] } i (Or.inl ⟨by simp, o, _, ho0, hA, rfl, Or.inr ⟨rfl, rfl⟩⟩)
+        have st1 := stable_alloc h0 s { o with fields := [] } i
         cases e1 : cpFields f ⟨s.h.push { o with fields := [] }, (i, s.h.size) :: s.m⟩ (planFields o) with
         | error e => simp [e1] at h
         | ok r1 =>
@@ -1965,18 +2179,40 @@ theorem qv_succ (wf : WellFormed c h0) (hnw : ∀ x ∈ targets pre, isBound h0 
             · intro x hx
               obtain ⟨f', hf', a, b⟩ := rb x hx
               exact ⟨f', hf', a, Or.inl b⟩
-          have i3 : Iso h0 pre P ⟨setFields s2.h s.h.size fs', s2.m⟩ := by
-            rw [setFields_eq hoj]
-            apply iso_update i2 s.h.size _ pend_drop
-            intro p hp e
-            have hpi : i = p.1 := g2.inj hpre (i, s.h.size) p hmem hp hb e.symm
-            exact Or.inr (Or.inr ⟨o, _, by rw [← hpi]; exact ho0, by rw [e]; exact getElem?_set_self hoj _, Or.inr hdone⟩)
-          have st3 : Stable h0 s ⟨setFields s2.h s.h.size fs', s2.m⟩ := by
-            rw [setFields_eq hoj]
-            exact stable_update_new (stable_trans st1 st2) s.h.size (Nat.le_refl _) _
+          have hvc : ∀ hh : Heap, VC h0 ⟨hh, s2.m⟩ (i, s.h.size) o { oj with fields := fs' } := by
+            intro hh tv ow nm e1 hu e2
+            left
+            have hin : ("_value", Val.ref tv) ∈ planFields o :=
+              planFields_mem_of_ne (get_mem e1) (by simp)
+            obtain ⟨f', hf', ek, _⟩ := rb _ hin
+            have hf'' : ("_value", f'.2) ∈ fs' := by
+              have : f' = ("_value", f'.2) := Prod.ext ek rfl
+              rw [← this]; exact hf'
+            obtain ⟨x, hx1, hx2⟩ := lookup_of_mem_key hf''
+            obtain ⟨y, hy, eyk, ryx⟩ := ra _ hx2
+            have hy' : ("_value", y.2) ∈ o.fields := by
+              have h1 := planFields_sub hy
+              have : y = ("_value", y.2) := Prod.ext eyk rfl
+              rw [← this]; exact h1
+            have ey : y.2 = .ref tv := hu _ hy'
+            rw [ey] at ryx
+            cases x with
+            | atom z => simp [ValRel] at ryx
+            | ref t => exact ⟨t, hx1, ryx⟩
           have hd3 : Done h0 ⟨setFields s2.h s.h.size fs', s2.m⟩ (i, s.h.size) := by
             rw [setFields_eq hoj]
-            exact ⟨o, _, ho0, getElem?_set_self hoj _, Or.inr hdone⟩
+            exact ⟨o, _, ho0, getElem?_set_self hoj _, Or.inr ⟨hdone, hvc _⟩⟩
+          have i3 : Iso h0 pre P ⟨setFields s2.h s.h.size fs', s2.m⟩ := by
+            have hd3' := hd3
+            rw [setFields_eq hoj] at hd3' ⊢
+            apply iso_update i2 s.h.size _ ⟨(i, s.h.size), hmem, rfl⟩ pend_drop
+            intro p hp e
+            have hpi : i = p.1 := g2.inj hpre (i, s.h.size) p hmem hp hb e.symm
+            have : p = (i, s.h.size) := Prod.ext hpi.symm e
+            rw [this]; exact Or.inr (Or.inr hd3')
+          have st3 : Stable h0 s ⟨setFields s2.h s.h.size fs', s2.m⟩ := by
+            rw [setFields_eq hoj]
+            exact stable_update_new (stable_trans st1 st2) s.h.size (Nat.le_refl _) _ ⟨(i, s.h.size), hmem, rfl⟩
           cases ha : annotationsRef o with
           | none =>
             simp only [ha] at h
@@ -2001,14 +2237,14 @@ theorem qv_succ (wf : WellFormed c h0) (hnw : ∀ x ∈ targets pre, isBound h0 
               simp only [e2] at h
               simp at h
               obtain ⟨e1', e2'⟩ := h; subst e1'; subst e2'
-              obtain ⟨i4, st4⟩ := hI (items.map Prod.snd) P _ i s.h.size s4 items' g3 i3 hb
+              obtain ⟨i4, st4⟩ := hI (items.map Prod.snd) P _ i s.h.size s4 items' g3 i3 hb hmem
                 (by
                   intro v hv
                   obtain ⟨fv, hfv, e⟩ := List.mem_map.mp hv
                   subst e; exact itemFields_src wf a hac items hit0 fv hfv) e2
               obtain ⟨g4, _⟩ := (pitems_of_pval (pval_all h0.size h0 pre f)) _ _ i s.h.size s4 items' g3 hb e2
               have hmem4 : (i, s.h.size) ∈ s4.m := st4.sub _ hmem
-              have hd4 := st4.done _ hd3
+              have hd4 := st4.done _ hmem hd3
               have st04 := stable_trans st3 st4
               -- attach
               unfold attachAnnotations
@@ -2020,36 +2256,34 @@ theorem qv_succ (wf : WellFormed c h0) (hnw : ∀ x ∈ targets pre, isBound h0 
                 generalize hAS : (Obj.mk .annset ao.cls [("_item_list", Val.ref s4.h.size), ("_item_set", Val.ref (s4.h.size + 1)),
                   ("target", Val.ref s.h.size)]) = AS
                 have hjlt : s.h.size < s4.h.size := g4.lt hpre _ hmem4
-                obtain ⟨so4, oj4, hso4, hoj4, hrel4⟩ := hd4
-                simp only at hso4 hoj4
-                rw [ho0] at hso4; cases hso4
-                have hoj4' : (((s4.h.push L).push S).push AS)[s.h.size]? = some oj4 := by
-                  rw [← hoj4]
-                  have h1 : s.h.size ≠ s4.h.size + 2 := by omega
-                  have h2 : s.h.size ≠ s4.h.size + 1 := by omega
-                  have h3 : s.h.size ≠ s4.h.size := by omega
-                  simp [Array.getElem?_push, h1, h2, h3]
-                rw [setField_eq hoj4']
-                have hrel4' : ObjRel s4.m o { oj4 with fields := setFieldL "_annotations" (.ref (s4.h.size + 2)) oj4.fields } :=
-                  objRel_setAnn _ (annotationsRef_aware ha) (hrel4.resolve_left hk)
-                have iA : Iso h0 pre P ⟨(((s4.h.push L).push S).push AS).setIfInBounds s.h.size
-                    { oj4 with fields := setFieldL "_annotations" (.ref (s4.h.size + 2)) oj4.fields }, s4.m⟩ := by
-                  apply iso_update (iso_push (iso_push (iso_push i4 L) S) AS) s.h.size _ (fun p hp _ => hp)
-                  intro p hp e
-                  have hpi : i = p.1 := g4.inj hpre (i, s.h.size) p hmem4 hp hb e.symm
-                  exact Or.inr (Or.inr ⟨o, _, by rw [← hpi]; exact ho0, by rw [e]; exact getElem?_set_self hoj4' _, Or.inr hrel4'⟩)
-                have stP : Stable h0 s ⟨((s4.h.push L).push S).push AS, s4.m⟩ :=
-                  stable_trans st04 (stable_trans (stable_push h0 s4 L) (stable_trans (stable_push h0 ⟨s4.h.push L, s4.m⟩ S)
-                    (stable_push h0 ⟨(s4.h.push L).push S, s4.m⟩ AS)))
-                have stU := stable_update_new stP s.h.size (Nat.le_refl _)
-                  { oj4 with fields := setFieldL "_annotations" (.ref (s4.h.size + 2)) oj4.fields }
-                refine ⟨?_, stable_trans stU (stable_memo h0 _ a (s4.h.size + 2)), List.mem_cons_of_mem _ hmem4⟩
-                apply iso_memo iA
-                refine Or.inr ⟨ao, AS, hao0, ?_, Or.inl haok⟩
-                simp only
-                have : s.h.size ≠ s4.h.size + 2 := by omega
-                simp [this]
-                simp [Array.getElem_push]
+                -- the state after the three allocations, the annotation set registered
+                have hmL : (i, s.h.size) ∈ (⟨s4.h.push L, s4.m⟩ : St).m := hmem4
+                have hmS : (i, s.h.size) ∈ (⟨(s4.h.push L).push S, s4.m⟩ : St).m := hmem4
+                have stY : Stable h0 s4 ⟨((s4.h.push L).push S).push AS, (a, s4.h.size + 2) :: s4.m⟩ := by
+                  have h3 := stable_alloc h0 ⟨(s4.h.push L).push S, s4.m⟩ AS a
+                  simp only [Array.size_push] at h3
+                  exact stable_trans (stable_push h0 s4 L) (stable_trans (stable_push h0 ⟨s4.h.push L, s4.m⟩ S) h3)
+                have hmY : (i, s.h.size) ∈ (a, s4.h.size + 2) :: s4.m := List.mem_cons_of_mem _ hmem4
+                have hdY := stY.done _ hmem4 hd4
+                obtain ⟨ojY, hojY, hdA⟩ := done_setAnn (.ref (s4.h.size + 2)) hdY
+                  (by intro o2 ho2; simp only at ho2; rw [ho0] at ho2; cases ho2; exact annotationsRef_aware ha)
+                  ⟨(i, s.h.size), hmY, rfl⟩
+                simp only at hojY hdA
+                rw [setField_eq hojY]
+                have hASget : (((s4.h.push L).push S).push AS)[s4.h.size + 2]? = some AS := by
+                  simp [Array.getElem?_push]
+                  simp [Array.getElem_push]
+                have iY : Iso h0 pre P ⟨((s4.h.push L).push S).push AS, (a, s4.h.size + 2) :: s4.m⟩ := by
+                  have h3 := iso_alloc (iso_push (iso_push i4 L) S) AS a (Or.inr ⟨ao, AS, hao0, by simpa using hASget, Or.inl haok⟩)
+                  simpa only [Array.size_push] using h3
+                refine ⟨?_, stable_update_new (stable_trans st04 stY) s.h.size (Nat.le_refl _) _ ⟨(i, s.h.size), hmY, rfl⟩, hmY⟩
+                apply iso_update iY s.h.size _ ⟨(i, s.h.size), hmY, rfl⟩ (fun p hp _ => hp)
+                intro p hp e
+                rcases List.mem_cons.mp hp with e' | e'
+                · exfalso; rw [e'] at e; simp at e; omega
+                · have hpi : i = p.1 := g4.inj hpre (i, s.h.size) p hmem4 e' hb e.symm
+                  have : p = (i, s.h.size) := Prod.ext hpi.symm e
+                  rw [this]; exact Or.inr (Or.inr hdA)
 
 theorem qv_all (wf : WellFormed c h0) (hnw : ∀ x ∈ targets pre, isBound h0 x = false) (hpre : ∀ p ∈ pre, p.2 < h0.size)
     (hann : ∀ (i : Nat) (o : Obj) (a : Nat), i < c → h0[i]? = some o → annotationsRef o = some a →
@@ -2065,8 +2299,8 @@ open Aux
 pre-seeded pairs a source object with a copy of the same kind and class whose attributes are exactly the memo-images of the
 source's attributes (`ObjRel`: every source attribute has a same-named counterpart with corresponding value and the copy has no
 others) — nodes, edges, trees, lists, dicts, tuples, taxa, sequences, Annotation objects and their values alike, through cycles.
-No entry is left half-built. Exceptions built into `ObjRel`: `_value` of an attribute-bound annotation (re-targeted to the copy:
-`retarget_step_partial`) and the separately rebuilt `_annotations` link.
+No entry is left half-built. Exceptions built into `ObjRel`: `_value` of an attribute-bound annotation (re-targeted to the copy;
+its final content is the subject of `bound_annotation_follows`) and the separately rebuilt `_annotations` link.
 PARTIAL — what is missing for the full equality clause: (1) for annotation-set objects (`annset` sources) nothing is stated: that the
 copy's item list consists of the memo-images of the source's items, in order, is not proved; (2) attributes correspond as sets of
 (name, value) pairs, their order in `__dict__` is not stated; (3) the memo-image is a relation (`(i, j) ∈ memo`), its
@@ -2086,10 +2320,91 @@ theorem copy_iso_partial (c : Nat) (h : Heap) (pre : Memo) (v : Val) (fuel : Nat
   obtain ⟨hi, _, hrel⟩ := qv_all wf hnw hpre hann fuel [] ⟨h, pre⟩ v s' v' (good_init h pre) hi0 hv hr
   refine ⟨hrel, ?_⟩
   intro p hp
-  rcases hi p hp with a | ⟨b, _⟩ | d
+  rcases hi p hp with a | ⟨b, _⟩ | ⟨o, o', d1, d2, d3⟩
   · exact Or.inl a
   · cases b
-  · exact Or.inr d
+  · exact Or.inr ⟨o, o', d1, d2, d3.imp id (fun x => x.1)⟩
+
+namespace Aux
+/-- the copy of a two-element tuple object holds the memo-images of its two elements -/
+theorem tuple_image {m : Memo} {ot ot' : Obj} {v0 v1 : Val} (r : ObjRel m ot ot') (hf : ot.fields = [("#0", v0), ("#1", v1)]) :
+    ∃ x0 x1, ot'.get "#0" = some x0 ∧ ot'.get "#1" = some x1 ∧ ValRel m v0 x0 ∧ ValRel m v1 x1 := by
+  obtain ⟨_, _, d1, d2⟩ := r
+  have key : ∀ (k : String) (v : Val), (k, v) ∈ ot.fields → k ≠ "_annotations" → k ≠ "_value" →
+      (∀ w, (k, w) ∈ ot.fields → w = v) → ∃ x, ot'.get k = some x ∧ ValRel m v x := by
+    intro k v hkv hna hnv hun
+    obtain ⟨f', hf', ek, rv⟩ := d2 (k, v) (planFields_mem_of_ne hkv hna)
+    have hf'' : (k, f'.2) ∈ ot'.fields := by
+      have : f' = (k, f'.2) := Prod.ext ek rfl
+      rw [← this]; exact hf'
+    obtain ⟨x, hx1, hx2⟩ := lookup_of_mem_key hf''
+    refine ⟨x, hx1, ?_⟩
+    rcases d1 (k, x) hx2 with ⟨a, _⟩ | ⟨a, _⟩ | ⟨y, hy, ey, ry⟩
+    · exact absurd a hna
+    · exact absurd a hnv
+    · have hy' : (k, y.2) ∈ ot.fields := by
+        have h1 := planFields_sub hy
+        have : y = (k, y.2) := Prod.ext ey rfl
+        rw [← this]; exact h1
+      rw [hun _ hy'] at ry; exact ry
+  obtain ⟨x0, g0, r0⟩ := key "#0" v0 (by rw [hf]; simp) (by decide) (by decide) (by
+    intro w hw; rw [hf] at hw; simp at hw; exact hw)
+  obtain ⟨x1, g1, r1⟩ := key "#1" v1 (by rw [hf]; simp) (by decide) (by decide) (by
+    intro w hw; rw [hf] at hw; simp at hw; exact hw)
+  exact ⟨x0, x1, g0, g1, r0, r1⟩
+end Aux
+
+/-- **bound_annotation_follows**: in the FINAL state of a successful copy, the copy `a2` of an attribute-bound annotation `a1`
+(whose `_value` is the tuple `(owner, attribute name)`) is bound to a memo-image `j` of the source's owner and to the same attribute
+name — `boundValue s'.h a2 = (ref j, nm)` with `(ow, j) ∈ memo` — whatever happened in between: the generic copy of the `_value` tuple
+already yields it (the owner is memoised before the copy descends) and every later re-targeting re-establishes it; nothing else
+writes `_value`.  This lifts the `_value` exemption of `ObjRel` (`copy_iso_partial`) at `boundValue` level.
+Hypotheses beyond `copy_iso_partial`'s, all facts about the exported heap that the harness checks per case: the annotation is not an
+annotation set and has one `_value` attribute; its `_value` object is a two-element tuple object `(ref ow, atom nm)`, not pre-seeded. -/
+theorem bound_annotation_follows (c : Nat) (h : Heap) (pre : Memo) (v : Val) (fuel : Nat) (s' : St) (v' : Val)
+    (wf : WellFormed c h) (hnw : ∀ x ∈ targets pre, isBound h x = false) (hpre : ∀ p ∈ pre, p.2 < h.size)
+    (hann : ∀ (i : Nat) (o : Obj) (a : Nat), i < c → h[i]? = some o → annotationsRef o = some a →
+      ∃ ao, h[a]? = some ao ∧ ao.kind = .annset)
+    (hv : SrcVal c v) (hr : cpVal fuel ⟨h, pre⟩ v = .ok (s', v'))
+    (a1 a2 : Nat) (hm : (a1, a2) ∈ s'.m) (hnp : (a1, a2) ∉ pre)
+    (o : Obj) (tv ow : Nat) (nm : String) (ho : h[a1]? = some o) (hk : o.kind ≠ .annset)
+    (hval : o.get "_value" = some (.ref tv)) (huniq : ∀ w, ("_value", w) ∈ o.fields → w = .ref tv)
+    (hbv : boundValue h a1 = some (.ref ow, .atom nm))
+    (ot : Obj) (hot : h[tv]? = some ot) (hotk : ot.kind ≠ .annset) (hotf : ot.fields = [("#0", .ref ow), ("#1", .atom nm)])
+    (htvpre : ∀ q ∈ pre, q.1 ≠ tv) :
+    ∃ j, boundValue s'.h a2 = some (.ref j, .atom nm) ∧ (ow, j) ∈ s'.m := by
+  have hi0 : Iso h pre [] ⟨h, pre⟩ := fun p hp => Or.inl hp
+  obtain ⟨hi, _, _⟩ := qv_all wf hnw hpre hann fuel [] ⟨h, pre⟩ v s' v' (good_init h pre) hi0 hv hr
+  rcases hi (a1, a2) hm with a | ⟨b, _⟩ | ⟨o1, o', d1, d2, d3⟩
+  · exact absurd a hnp
+  · cases b
+  · simp only at d1 d2
+    rw [ho] at d1; cases d1
+    rcases d3 with a | ⟨_, vc⟩
+    · exact absurd a hk
+    · rcases vc tv ow nm hval huniq hbv with ⟨t, ht, hmt⟩ | ⟨t, j, ot2, a, b, c', d, _, f⟩
+      · rcases hi (tv, t) hmt with a | ⟨b, _⟩ | ⟨ot1, ot', e1, e2, e3⟩
+        · exact absurd rfl (htvpre _ a)
+        · cases b
+        · simp only at e1 e2
+          rw [hot] at e1; cases e1
+          rcases e3 with a | ⟨rt, _⟩
+          · exact absurd a hotk
+          · obtain ⟨x0, x1, g0, g1, r0, r1⟩ := tuple_image rt hotf
+            cases x0 with
+            | atom z => simp [ValRel] at r0
+            | ref j =>
+              cases x1 with
+              | ref z => simp [ValRel] at r1
+              | atom z =>
+                have : nm = z := by simpa [ValRel] using r1
+                subst this
+                refine ⟨j, ?_, r0⟩
+                simp only [Obj.get] at ht g0 g1
+                simp [boundValue, d2, Obj.get, ht, e2, g0, g1]
+      · refine ⟨j, ?_, f⟩
+        simp only [Obj.get] at a c' d
+        simp [boundValue, d2, Obj.get, a, b, c', d]
 
 /-- **copy_root_corresponds**: in particular the copy of a source object that was not pre-seeded is an object of the same class
 whose attributes are the memo-images of the source's. -/
@@ -2578,7 +2893,7 @@ def exAnn : Heap := #[
 /-- the driver's deep-copy route succeeds on it with the fuel the driver uses; in the FINAL heap the copied annotation (7) is
 bound to the copy of the tree (6), not to the source (0) -/
 example : ∃ s' v', copyRoute exAnn [] (.ref 0) = .ok (s', v') ∧ v' = .ref 6 ∧ s'.h.size = 13 ∧
-    boundValue s'.h 7 = some (.ref 6, .atom "weight") := by
+    boundValue s'.h 7 = some (.ref 6, .atom "weight") ∧ (4, 7) ∈ s'.m ∧ (0, 6) ∈ s'.m := by
   simp [copyRoute, preseed, cpVal, cpFields, cpItems, exAnn, planFields, annotationsRef, setFields, setField, setFieldL, List.lookup,
     itemFields, Obj.get, retarget, isBound, boundValue, attachAnnotations, pushAnnSet, dedupVals, indexed]
   try exact ⟨_, _, ⟨rfl, rfl⟩, rfl, by simp, by simp [List.lookup]⟩
@@ -2662,7 +2977,7 @@ open Aux
 
 /-- the annotated tree `exAnn` (annotation set, attribute-bound annotation, `_value` tuple) satisfies every hypothesis of
 `copy_total` / `copy_iso_partial`: it is well-formed and its `_annotations` refers to an annotation set -/
-example : WellFormed 6 exAnn ∧
+theorem Aux.exAnn_wf : WellFormed 6 exAnn ∧
     (∀ (i : Nat) (o : Obj) (a : Nat), i < 6 → exAnn[i]? = some o → annotationsRef o = some a →
       ∃ ao, exAnn[a]? = some ao ∧ ao.kind = .annset) := by
   have cases6 : ∀ i, i < 6 → i = 0 ∨ i = 1 ∨ i = 2 ∨ i = 3 ∨ i = 4 ∨ i = 5 := by intro i hi; omega
@@ -2690,6 +3005,20 @@ example : WellFormed 6 exAnn ∧
     subst ha
     exact ⟨{ kind := .annset, cls := "AnnotationSet", fields := [("_item_list", .ref 2), ("_item_set", .ref 3), ("target", .ref 0)] },
       by simp [exAnn], rfl⟩
+
+/-- `bound_annotation_follows` instantiated on `exAnn`: every hypothesis is discharged for the bound annotation 4 (`_value` tuple 5,
+owner 0, attribute "weight"); the run exists (`copyRoute exAnn [] (.ref 0)` above evaluates to a state whose memo contains `(4, 7)`
+and where `boundValue s'.h 7 = (ref 6, "weight")`), so the conclusion is not vacuous -/
+example (fuel : Nat) (s' : St) (v' : Val) (hr : cpVal fuel ⟨exAnn, []⟩ (.ref 0) = .ok (s', v')) (a2 : Nat) (hm : (4, a2) ∈ s'.m) :
+    ∃ j, boundValue s'.h a2 = some (.ref j, .atom "weight") ∧ (0, j) ∈ s'.m :=
+  bound_annotation_follows 6 exAnn [] (.ref 0) fuel s' v' Aux.exAnn_wf.1 (by simp [targets]) (by simp) Aux.exAnn_wf.2
+    (by intro i e; cases e; decide) hr 4 a2 hm (by simp)
+    { kind := .annotable, cls := "Annotation", fields := [("_value", .ref 5), ("is_attribute", .atom "True")] } 5 0 "weight"
+    (by simp [exAnn]) (by decide) (by simp [Obj.get, List.lookup])
+    (by intro w hw; simp at hw; exact hw)
+    (by simp [boundValue, exAnn, Obj.get, List.lookup])
+    { kind := .tuple, cls := "tuple", fields := [("#0", .ref 0), ("#1", .atom "weight")] } (by simp [exAnn]) (by decide) rfl
+    (by simp)
 
 /-- a unary chain with lengths 1 and 2 above a leaf: the lengths are well-formed, so `extract_sup_pathsums` applies -/
 example : LensWF (.node 0 none none none [.node 1 none (some ⟨1, 1⟩) none [.node 2 (some 0) (some ⟨2, 1⟩) none []]]) := by
